@@ -46,6 +46,10 @@ def configs(tier, seed):
                     continue
                 cfgs.append(dict(kind='crash', name='crash utt%d pre%d comp=%s' % (nutt, npre, comp), nutt=nutt, npre=npre, comp=comp,
                                  npost=0 if tier == 'quick' else 1))
+    # non-default file names: the manifest lists utterance ids, the files carry --file-prefix / --file-suffix
+    for nutt in (2, 3):
+        cfgs.append(dict(kind='crash', name='crash utt%d pre1 comp=True file-prefix feat_ file-suffix .bin' % nutt, nutt=nutt, npre=1, comp=True,
+                         npost=0 if tier == 'quick' else 1, prefix='feat_', suffix='.bin'))
     return cfgs
 
 
@@ -53,6 +57,15 @@ def run_config(cfg):
     nutt, npre, comp, npost = cfg['nutt'], cfg['npre'], cfg['comp'], cfg['npost']
     env = Env(nutt, npre, npost, 1, comp)
     env.mono_1d = True
+    env.file_prefix, env.file_suffix = cfg.get('prefix', ''), cfg.get('suffix', '.pt')
+    pre_, suf_ = env.file_prefix, env.file_suffix
+
+    def fname(u):
+        return 'out/%s%s%s' % (pre_, u, suf_)
+
+    def fid(path):
+        b = path[4:]
+        return b[len(pre_):len(b) - len(suf_)] if b.startswith(pre_) and b.endswith(suf_) else None
     ns = build_torch_ns(env)
     viol = []
     ob = dis = 0
@@ -136,7 +149,7 @@ def run_config(cfg):
         durable = list(m1.lines) if is_hard else list(m1.lines) + [l for l in ''.join(m1.buffer).split('\n') if l]
         # (A) listed => complete file
         for u in durable:
-            st = files1.get('out/%s.pt' % u)
+            st = files1.get(fname(u))
             if st is None or st[0] != 'complete':
                 return ('A: listed utterance without a complete file', u)
         # (B) finished before the kill => listed
@@ -157,7 +170,7 @@ def run_config(cfg):
             if key in durable:
                 return ('D: listed utterance recomputed', key)
         for (path, t) in env.saved:
-            if path[4:-3] in durable:
+            if fid(path) in durable:
                 return ('D: listed utterance rewritten', path)
         # (C) same directory as the uninterrupted run
         final = dict(env.files)
@@ -183,7 +196,7 @@ def run_config(cfg):
             reached = reached or res[0] == 'ok'
             continue
         m = ctx.model()
-        viol.append(dict(kind='crash', nutt=nutt, npre=npre, comp=comp, npost=npost, what=res[0], detail=str(res[1:])[:300],
+        viol.append(dict(kind='crash', nutt=nutt, npre=npre, comp=comp, npost=npost, prefix=pre_, suffix=suf_, what=res[0], detail=str(res[1:])[:300],
                          crash_at=m.eval(z3.Int('crash_at'), True).as_long(), hard=z3.is_true(m.eval(z3.Bool('hard_kill'), True)),
                          write_fails=z3.is_true(m.eval(z3.Bool('write_fails'), True)),
                          seed=m.eval(z3.Int('seed'), True).as_long(),
@@ -218,8 +231,18 @@ def replay(w):
         conf = {'name': 'stft', 'bank': {'name': 'fbank', 'num_filts': 5, 'sampling_rate': 8000}, 'frame_length_ms': 10, 'frame_shift_ms': 5}
         pre = [{'name': 'dither', 'coeff': 1.0}] if w['npre'] else []
 
+        fpre, fsuf = w.get('prefix', ''), w.get('suffix', '.pt')
+
         def args(out, man):
-            return [mp] + ([json.dumps(conf)] if w['comp'] else []) + [out, '--preprocess', json.dumps(pre), '--seed', str(int(w.get('seed', 7))), '--manifest', man]
+            extra = (['--file-prefix', fpre] if fpre else []) + (['--file-suffix', fsuf] if fsuf != '.pt' else [])
+            return [mp] + ([json.dumps(conf)] if w['comp'] else []) + [out, '--preprocess', json.dumps(pre), '--seed', str(int(w.get('seed', 7))), '--manifest', man] + extra
+
+        def fn_(u):
+            return fpre + u + fsuf
+
+        def _uid_of(base):
+            b = base[len(fpre):] if fpre and base.startswith(fpre) else base
+            return b.split('.')[0]
         ref = os.path.join(work, 'ref')
         command_line.signals_to_torch_feat_dir(args(ref, os.path.join(work, 'ref.manifest')))
         out, man = os.path.join(work, 'out'), os.path.join(work, 'manifest')
@@ -248,7 +271,7 @@ def replay(w):
                 raise Kill()
             count[0] += 1
             r_ = real_save(obj, path, *a, **kw)
-            completed.append(os.path.basename(str(getattr(path, 'name', path))).split('.')[0])       # processing order is the tool's business: record what was really completed
+            completed.append(_uid_of(os.path.basename(str(getattr(path, 'name', path)))))       # processing order is the tool's business: record what was really completed
             return r_
         torch.save = save
         parse = command_line._signals_to_torch_feat_dir_parse_args
@@ -290,7 +313,7 @@ def replay(w):
                     % ('hard' if w.get('hard', True) else 'soft', k, listed, missing)}
         for u in listed:
             try:
-                torch.load(os.path.join(out, u + '.pt'))
+                torch.load(os.path.join(out, fn_(u)))
             except Exception as e:
                 return {'reproduced': True, 'detail': 'after %s the manifest lists %s, whose file cannot be loaded (%s)' % ('a failed write (OSError from torch.save)' if w.get('write_fails') else ('a hard kill' if w.get('hard', True) else 'a soft interruption'), u, type(e).__name__)}
         def tracked_rerun(a_):
@@ -299,7 +322,7 @@ def replay(w):
             real_read = command_line.read_signal
 
             def save2(obj, path, *a, **kw):
-                saved_.append(os.path.basename(str(path))[:-3])
+                saved_.append(_uid_of(os.path.basename(str(path))))
                 return real_save(obj, path, *a, **kw)
 
             def read2(rfilename, *a, **kw):
@@ -320,10 +343,10 @@ def replay(w):
             return {'reproduced': True, 'detail': 'the manifest listed %s before the re-run, yet the re-run read / rewrote %s (files written: %s)' % (listed, again, saved2)}
         for u in range(nutt):
             try:
-                a = torch.load(os.path.join(out, uid(u, nutt) + '.pt'))
+                a = torch.load(os.path.join(out, fn_(uid(u, nutt))))
             except Exception as e:
                 return {'reproduced': True, 'detail': 'after kill (during utterance %d) + resume, the file of %s (map line %d) is missing or incomplete (%s)' % (k, uid(u, nutt), u, type(e).__name__)}
-            b = torch.load(os.path.join(ref, uid(u, nutt) + '.pt'))
+            b = torch.load(os.path.join(ref, fn_(uid(u, nutt))))
             if a.shape != b.shape or not torch.equal(a, b):
                 return {'reproduced': True, 'detail': 'after kill (during utterance %d) + resume, %s (map line %d, ids not sorted) differs from the uninterrupted run (max diff %.3g)'
                         % (k, uid(u, nutt), u, float((a - b).abs().max()) if a.shape == b.shape else float('nan'))}
@@ -353,8 +376,8 @@ def replay(w):
                     return {'reproduced': True, 'detail': 'the tool failed in a fresh interpreter process: %s' % r_.stderr[-300:]}
                 outs.append(o_)
             for u in range(nutt):
-                a = torch.load(os.path.join(outs[0], uid(u, nutt) + '.pt'))
-                b = torch.load(os.path.join(outs[1], uid(u, nutt) + '.pt'))
+                a = torch.load(os.path.join(outs[0], fn_(uid(u, nutt))))
+                b = torch.load(os.path.join(outs[1], fn_(uid(u, nutt))))
                 if a.shape != b.shape or not torch.equal(a, b):
                     return {'reproduced': True, 'detail': 'the same command (--seed %s, dither) run in two separate interpreter processes stores different features for %s (max diff %.3g): an interrupted run resumed from the shell cannot reproduce the uninterrupted one'
                             % (w.get('seed', 7), uid(u, nutt), float((a - b).abs().max()) if a.shape == b.shape else float('nan'))}
